@@ -12,7 +12,7 @@ queued, e.g. held back behind a re-add by a non-permitting flush — is in that 
 anywhere else (at the sender, at enqueue time) or against anything less than snapshot + every queued EXISTS contradicts
 it; the `sys` correspondence and `judge-c05-sys` check the implementation against it.
 -/
-import GluonModel.Lemmas.SysHeld
+import GluonModel.Lemmas.SysClose
 
 namespace Gluon.C05Sys
 
@@ -77,6 +77,101 @@ theorem next_permitting_command_announces {s : Sys} (h : SysInv s) {i : Nat} {me
   rw [hq, List.append_nil] at hh
   exact C02.flush_true_converges hh.conv
 
+/-! ### The connector deletes a message (`imap.MessageDeleted`, `applyMessageDeleted`; `ConnOp.delete`) -/
+
+/-- **After the connector's `MessageDeleted` no mailbox holds the message** — in EVERY system state: whatever mailboxes
+    held message `id` (one, two, all), after the step the authoritative view of every mailbox — what a newly opened
+    session sees — is without it. -/
+theorem connector_delete_leaves_every_mailbox (s : Sys) (id : MsgId) (hid : id < s.idx.nextId) (mb : Nat) :
+    id ∉ ((step s (.conn (.delete id))).1.idx.view mb).ids := by
+  rw [step_conn]
+  exact delete_view s.idx id hid mb
+
+/-- **The deletion reaches every session that knows the message** (in a state satisfying the system invariant) — right
+    after the connector's `MessageDeleted`, every session that has message `id` in its snapshot — or knows it only
+    through an EXISTS that is applied or still queued — has the `expunge id` responder among its responders or among
+    those its update queue will contribute: the update filter (`MessageAndMBoxIDStateFilter`) cannot drop it. -/
+theorem connector_delete_reaches_queue {s : Sys} (h : SysInv s) (id : MsgId) (hid : id < s.idx.nextId) {j : Nat}
+    {me : Sys.Sess} {mb : Nat} (hj : (step s (.conn (.delete id))).1.sess[j]? = some me) (hs : me.sel = some mb)
+    (hknown : me.snap.has id = true ∨ ∃ r ∈ me.res ++ pendOf (sidOf j) mb me.inbox, r.isExists = true ∧ r.msgId = id) :
+    Responder.expunge id ∈ me.res ++ pendOf (sidOf j) mb me.inbox :=
+  removal_queued (step_inv h (.conn (.delete id)) trivial trivial) hj hs hknown
+    (connector_delete_leaves_every_mailbox s id hid mb)
+
+/-- **Delivered and flushed with permission, the deleted message is gone from the session's view** (invariant) — the
+    connector deletes message `id`, session `i` takes `k` updates from its queue; if nothing addressed to its mailbox
+    is left in the queue, the next command that permits EXPUNGE (NOOP, …) does not fail, empties the session's queue of
+    responders and leaves a snapshot that does not contain `id`. -/
+theorem connector_delete_announced {s : Sys} (h : SysInv s) (id : MsgId) (hid : id < s.idx.nextId) (i k : Nat)
+    {me : Sys.Sess} {mb : Nat} (hi : (exec s [.conn (.delete id), .drain i k]).sess[i]? = some me)
+    (hs : me.sel = some mb) (hq : pendOf (sidOf i) mb me.inbox = []) :
+    (me.flush (sidOf i) true).1.snap.has id = false ∧ (me.flush (sidOf i) true).1.res = [] ∧
+    ∀ e, (me.flush (sidOf i) true).2 ≠ .err e := by
+  have hinv : SysInv (exec s [.conn (.delete id), .drain i k]) :=
+    exec_inv h _ (by intro op hop; simp at hop; rcases hop with rfl | rfl <;> trivial) ⟨trivial, trivial, trivial⟩
+  obtain ⟨hv, hr, he⟩ := next_permitting_command_announces hinv hi hs hq
+  refine ⟨?_, hr, he⟩
+  have hidx : (exec s [.conn (.delete id), .drain i k]).idx = (connEffect s.idx (.delete id)).1 := by
+    rw [exec_cons, exec_cons, exec_nil, step_drain_idx, step_conn]
+  rw [hidx] at hv
+  cases hh : (me.flush (sidOf i) true).1.snap.has id with
+  | false => rfl
+  | true => exact absurd ((sameView_has hv id).mp hh) (delete_view s.idx id hid mb)
+
+/-- **Without permission the deletion is not announced** — in EVERY system state (no invariant, any schedule) in which
+    the `expunge id` responder of the deletion has been applied by session `i`: a FETCH-class command answers no
+    untagged EXPUNGE, the responder stays in the session's queue, and the tagged completion carries
+    `[EXPUNGEISSUED]`. -/
+theorem connector_delete_held_back_without_permission (s : Sys) {i : Nat} {me : Sys.Sess} {mb : Nat}
+    (hi : s.sess[i]? = some me) (hs : me.sel = some mb) (id : MsgId) (hm : Responder.expunge id ∈ me.res) :
+    (∀ x ∈ (step s (.flush i false)).2.resps, x.isExpunge = false) ∧
+    ∃ me', (step s (.flush i false)).1.sess[i]? = some me' ∧ Responder.expunge id ∈ me'.res ∧
+      expungeIssued me'.res = true := by
+  refine ⟨no_expunge_without_permission s (.flush i false) rfl, ?_⟩
+  obtain ⟨me', h1, h2, h3⟩ := removals_held_back_in_order s hi hs
+  refine ⟨me', h1, ?_, ?_⟩
+  · have : Responder.expunge id ∈ me.res.filter (·.isExpunge) := List.mem_filter.mpr ⟨hm, rfl⟩
+    rw [← h2] at this
+    exact (List.mem_filter.mp this).1
+  · rw [h3, List.any_eq_true]
+    exact ⟨_, hm, rfl⟩
+
+/-! ### CLOSE (`handleClose`; `SysOp.close`) -/
+
+/-- **CLOSE is silent** — in EVERY system state (no invariant, any schedule): whatever the closing session expunges
+    and whatever removals it was holding back, the answer to its CLOSE contains no untagged EXPUNGE. -/
+theorem close_is_silent (s : Sys) (i : Nat) : ∀ x ∈ (step s (.close i)).2.resps, x.isExpunge = false :=
+  step_close_noexp s i
+
+/-- **CLOSE writes what EXPUNGE writes** — in EVERY system state: the index after `CLOSE` of session `i` is the index
+    after its `EXPUNGE`, and every other session is left as that EXPUNGE leaves it (the same removals queued): the
+    statements about EXPUNGE (Theorems/SysC03.lean) carry over, and the other sessions' clients are told the removals
+    by their own next permitting command (`removal_reaches_queue`, `next_permitting_command_announces`). -/
+theorem close_writes_what_expunge_writes (s : Sys) (i : Nat) :
+    (step s (.close i)).1.idx = (step s (.cmd i .expunge)).1.idx ∧
+    ∀ j, j ≠ i → (step s (.close i)).1.sess[j]? = (step s (.cmd i .expunge)).1.sess[j]? := step_close_idx s i
+
+/-- **CLOSE succeeds and unselects** (in a state satisfying the invariant; partial: `OpNoOvertake`, i.e. nothing
+    addressed to the session's mailbox is still in its update queue, or it expunges nothing) — the flush inside CLOSE
+    does not fail, the answer is OK without any untagged response, and the session is left with no mailbox, an empty
+    snapshot and no responders; its update queue is NOT dropped. -/
+theorem close_unselects_partial {s : Sys} (h : SysInv s) {i : Nat} (hno : OpNoOvertake s (.close i)) {me : Sys.Sess}
+    {mb : Nat} (hi : s.sess[i]? = some me) (hs : me.sel = some mb) :
+    (step s (.close i)).2 = {} ∧
+    (step s (.close i)).1.sess[i]? = some { sel := none, snap := [], res := [], inbox := me.inbox } :=
+  step_close_ok h hno hi hs
+
+/-- **A removal made by CLOSE reaches every observer** (invariant; partial: `OpNoOvertake`) — after session `i` closed
+    its mailbox, every session that knows a message the mailbox no longer holds has the `expunge` responder among its
+    responders or among those its update queue will contribute. -/
+theorem close_removal_reaches_queue_partial {s : Sys} (h : SysInv s) (i : Nat) (hno : OpNoOvertake s (.close i))
+    {j : Nat} {me : Sys.Sess} {mb : Nat} (hj : (step s (.close i)).1.sess[j]? = some me) (hs : me.sel = some mb)
+    {id : MsgId}
+    (hknown : me.snap.has id = true ∨ ∃ r ∈ me.res ++ pendOf (sidOf j) mb me.inbox, r.isExists = true ∧ r.msgId = id)
+    (hgone : id ∉ ((step s (.close i)).1.idx.view mb).ids) :
+    Responder.expunge id ∈ me.res ++ pendOf (sidOf j) mb me.inbox :=
+  removal_queued (step_inv h (.close i) trivial hno) hj hs hknown hgone
+
 /-! ### Non-vacuity -/
 
 namespace Ex
@@ -110,5 +205,65 @@ example :
       [[.exists 0], [.exists 0], [.exists 1], [], [.exists 1], [], [], [], [], [], [], []] ∧
     ((exec (Sys.init 2 2) (Ex.ops.take 10)).sess[0]?).map (fun me => expungeIssued me.res) = some true := by
   decide
+
+namespace ExDel
+/-- session 0 has mailbox 0 selected, session 1 mailbox 1; the connector creates message 1 in mailbox 0 and puts it
+    into mailbox 1 as well; both sessions show it; the connector deletes it; session 0 takes the update, answers a
+    FETCH, then a NOOP; session 1 leaves the update in its queue -/
+def ops : List SysOp :=
+  [ .select 0 0, .select 1 1, .conn (.create 0 []), .conn (.boxes 1 [0, 1]), .drain 0 9, .drain 1 9, .flush 0 true,
+    .flush 1 true, .conn (.delete 1), .drain 0 9, .flush 0 false, .flush 0 true ]
+end ExDel
+
+/-- the trace is inside the hypotheses; message 1 is in two mailboxes when it is deleted and in none afterwards
+    (`connector_delete_leaves_every_mailbox`); the FETCH announces nothing and keeps the removal
+    (`connector_delete_held_back_without_permission`), the NOOP announces `1 EXPUNGE` and session 0's view is empty
+    (`connector_delete_announced`); session 1, which shows the message, has the removal queued
+    (`connector_delete_reaches_queue`) -/
+example :
+    (∀ op ∈ ExDel.ops, op.Valid) ∧ NoOvertake (Sys.init 2 2) ExDel.ops ∧
+    ((exec (Sys.init 2 2) (ExDel.ops.take 8)).idx.boxesOf 1) = [0, 1] ∧
+    ((exec (Sys.init 2 2) (ExDel.ops.take 9)).idx.boxesOf 1) = [] ∧
+    (Sys.run (Sys.init 2 2) ExDel.ops).2.map (·.resps) =
+      [[.exists 0], [.exists 0], [], [], [], [], [.exists 1], [.exists 1], [], [], [], [.expunge 1]] ∧
+    ((exec (Sys.init 2 2) (ExDel.ops.take 11)).sess.map fun me => (me.snap.map (·.id), me.res, me.inbox)) =
+      [([1], [.expunge 1], []), ([1], [], [.expunge 0 1, .expunge 1 1])] ∧
+    ((exec (Sys.init 2 2) ExDel.ops).sess.map fun me => (me.snap.map (·.id), me.res, me.inbox)) =
+      [([], [], []), ([1], [], [.expunge 0 1, .expunge 1 1])] := by
+  decide
+
+example : ∀ (me : Sys.Sess), (exec (Sys.init 2 2) (ExDel.ops.take 10)).sess[0]? = some me → me.sel = some 0 →
+    pendOf (sidOf 0) 0 me.inbox = [] → (me.flush (sidOf 0) true).1.snap.has 1 = false :=
+  fun me hi hs hq =>
+    (connector_delete_announced (s := exec (Sys.init 2 2) (ExDel.ops.take 8))
+      (exec_inv (init_inv 2 2) _ (by decide) (by decide)) 1 (by decide) 0 9 hi hs hq).1
+
+namespace ExClose
+/-- both sessions select mailbox 0; session 0 appends message 1 with `\Deleted` and message 2; session 1 shows both;
+    session 0 closes; session 1 takes the update, answers a FETCH, then a NOOP -/
+def ops : List SysOp :=
+  [ .select 0 0, .select 1 0, .cmd 0 (.append 0 ["\\deleted"]), .cmd 0 (.append 0 []), .drain 1 9, .flush 1 true,
+    .close 0, .drain 1 9, .flush 1 false, .flush 1 true, .flush 0 true ]
+end ExClose
+
+/-- the trace is inside the hypotheses; the CLOSE (op 6) answers OK with no untagged response (`close_is_silent`,
+    `close_unselects_partial`), message 1 is gone from the mailbox (`close_writes_what_expunge_writes`) and its removal
+    is queued for session 1 (`close_removal_reaches_queue_partial`), whose FETCH announces nothing and whose NOOP
+    announces `1 EXPUNGE`; session 0 is left unselected -/
+example :
+    (∀ op ∈ ExClose.ops, op.Valid) ∧ NoOvertake (Sys.init 2 2) ExClose.ops ∧
+    (Sys.run (Sys.init 2 2) ExClose.ops).2.map (fun o => (o.status, o.resps)) =
+      [ (.ok, [.exists 0]), (.ok, [.exists 0]), (.ok, [.exists 1]), (.ok, [.exists 2]), (.ok, []),
+        (.ok, [.exists 2]), (.ok, []), (.ok, []), (.ok, []), (.ok, [.expunge 1]), (.ok, []) ] ∧
+    ((exec (Sys.init 2 2) (ExClose.ops.take 7)).sess.map fun me => (me.sel, me.snap.map (·.id), me.res, me.inbox)) =
+      [(none, [], [], []), (some 0, [1, 2], [], [.expunge 0 1])] ∧
+    ((exec (Sys.init 2 2) ExClose.ops).sess.map fun me => (me.sel, me.snap.map (·.id), me.res, me.inbox)) =
+      [(none, [], [], []), (some 0, [2], [], [])] ∧
+    ((exec (Sys.init 2 2) ExClose.ops).idx.view 0).ids = [2] :=
+  ⟨by decide, by decide, by decide, by decide, by decide, by decide⟩
+
+example : ∀ (me : Sys.Sess), (exec (Sys.init 2 2) (ExClose.ops.take 6)).sess[0]? = some me → me.sel = some 0 →
+    (step (exec (Sys.init 2 2) (ExClose.ops.take 6)) (.close 0)).2 = {} :=
+  fun _ hi hs => (close_unselects_partial (exec_inv (init_inv 2 2) _ (by decide) (by decide)) (by decide) hi hs).1
 
 end Gluon.C05Sys
